@@ -21,6 +21,9 @@ import (
 	"sort"
 	"strings"
 
+	"github.com/quay/zlog"
+	"github.com/rs/zerolog"
+
 	"github.com/quay/claircore/pkg/tarfs"
 	"github.com/quay/claircore/verifharness/internal/hx"
 )
@@ -73,7 +76,14 @@ type harness struct {
 	rnd *hx.Rand
 }
 
+// quiet silences the library's logging (malformed inputs make it chatty).
+func quiet() {
+	l := zerolog.Nop()
+	zlog.Set(&l)
+}
+
 func Run(cfg hx.Config) error {
+	quiet()
 	r, err := hx.NewRun(cfg)
 	if err != nil {
 		return err
@@ -86,6 +96,9 @@ func Run(cfg hx.Config) error {
 	h.corpus()
 	h.pnumStream()
 	h.segStream()
+	h.rpmHdrStream()
+	h.bdbStream()
+	h.ndbStream()
 	return nil
 }
 
@@ -136,6 +149,12 @@ func (h *harness) replayLine(line string) {
 		h.opPnum(b)
 	case "seg":
 		h.opSeg(b, "corpus")
+	case "rpmhdr":
+		h.opRpmHdr(b, "corpus")
+	case "bdb":
+		h.opBdb(b, "corpus")
+	case "ndb":
+		h.opNdb(b, "corpus")
 	}
 }
 
